@@ -56,13 +56,19 @@ def check_pair(item):
         stmts = (("match", a), ("optional", (("match", b),)), ("match", L("c")))
     elif kind == "loop":
         stmts = (("loop", None, (("match", a), ("optional", (("match", L("x")), ("break", None))))), ("match", b))
+    elif kind == "if":
+        a, b, b2 = a[0], a[1], b
+        stmts = (("case", False, ((None, (L("p"),), (("set", "n", ("num", 1)),)), (None, (L("q"),), ()))), ("match", a),
+                 ("if", ((("bin", "==", ("var", "n"), ("num", 1)), (("match", b),)),), (("match", b2),)))
     src = U.source(stmts)
     res = dict(src=src, status=None, truth=None, witness=None, kind=kind, ref_witness=None)
     acc = loader.compile_source(src, [], codegen=False)
     res["status"] = acc.kind
     reps = U.reps_of(stmts)
     ra, rb = U.m_core(a), U.m_core(b)
-    if kind == "seq":
+    if kind == "if":
+        w = ambiguous_seq(ra, rb, reps) or ambiguous_seq(ra, U.m_core(b2), reps)
+    elif kind == "seq":
         w = ambiguous_seq(ra, rb, reps)
         # an empty-matching A or B makes boundaries undecidable only if it overlaps; covered by the same test
     elif kind == "opt":
@@ -179,7 +185,21 @@ def run(tier, seed):
     for a, b in itertools.product(MENU, MENU):
         for kind in ("seq", "opt", "optafter", "loop"):
             items.append(("pair", (kind, a, b)))
+    sub = MENU[:3] + MENU[4:5] + MENU[8:11]
+    for a in sub:
+        for b1, b2 in itertools.product(sub, sub):
+            if b1 != b2:
+                items.append(("pair", ("if", (a, b1), b2)))
     case_items = c08.items_for(tier, seed)
+    # greedy priority assignments with a tie at the top and a lower third clause
+    idx = list(range(len(c08.PATS)))
+    for k, combo in enumerate(itertools.combinations(idx, 3)):
+        if tier == "quick" and k % 3 != seed % 3:
+            continue
+        cl = tuple((c08.PATS[i],) for i in combo)
+        for pr in ((2, 2, 0), (2, 0, 2), (0, 2, 2), (1, 1, 1), (0, 1, 1)):
+            items.append(("case", (cl, "plain", True, pr)))
+            items.append(("case", (cl, "lexer", True, pr)))
     for it in case_items:
         if it[1] in ("plain", "else", "empty1") and not (it[2] and it[1] == "else"):
             items.append(("case", it[:4]))
